@@ -67,8 +67,17 @@ def hash_worker(case):
         lines = case["lines"]
         open(os.path.join(cdir, "cases"), "w").write("\n".join("%d %d %d %s %d" % tuple(l) for l in lines) + "\n")
         outs = {}
-        for name, binp in case["bins"].items():
-            r = core.run_proc([binp, "msg.bin", "cases", "out." + name], cdir, cpu=case.get("cpu", 300), wall=case.get("cpu", 300) * 6)
+        runs = list(case["bins"].items())
+        if case.get("noise"):
+            # the same digests in a process whose application part has left an (already handled) error on OpenSSL's error queue and a
+            # non-zero errno behind before every operation
+            runs += [(n_ + "+app-noise", b_) for n_, b_ in case["bins"].items()]
+        for name, binp in runs:
+            env_ = None
+            if name.endswith("+app-noise"):
+                env_ = core.san_env(cdir)
+                env_["ZCKV_APP_NOISE"] = "1"
+            r = core.run_proc([binp, "msg.bin", "cases", "out." + name], cdir, env=env_, cpu=case.get("cpu", 300), wall=case.get("cpu", 300) * 6)
             if r.timed_out and not r.cpu_exceeded:
                 return core.verdict(cid, "inconclusive", detail="watchdog", case=case)
             cs = core.crash_signatures(r, where="hash:" + name)
@@ -82,6 +91,11 @@ def hash_worker(case):
             if "END" not in o:
                 return core.verdict(cid, "inconclusive", detail="h_hash (%s) did not finish rc=%s %r" % (name, r.rc, r.stderr[-200:]), case=case)
             outs[name] = o
+            if name == "openssl+app-noise":
+                nz = [x for x in o if x.startswith("NOISE ")]
+                stats["digest_runs_with_dirty_openssl_error_queue"] = 1
+                if not nz or int(nz[0].split()[1]) == 0:
+                    return core.verdict(cid, "inconclusive", detail="application noise requested but no OpenSSL error could be queued", case=case)
         viol = None
         nontriv = set()
         for i, l in enumerate(lines):
@@ -113,7 +127,7 @@ def hash_worker(case):
 def file_worker(case):
     cdir = case["dir"]
     keep = False
-    cid = core.h8(["file", case["cfg"], case["kind"], case["size"], case["seg"]])
+    cid = core.h8(["file", case["cfg"], case["kind"], case["size"], case["seg"], case.get("noise")])
     stats = {"evaluations": 1, "cross_build_files": 1}
     try:
         D = gen.content(case["kind"], case["size"], case["cseed"])
@@ -124,7 +138,9 @@ def file_worker(case):
         outs = {}
         for name, zh in case["zhs"].items():
             d = os.path.join(cdir, name)
-            w = core.run_zh(zh, d, gen.writer_script(cfg, seg=case["seg"]), files, name="w")
+            w = core.run_zh(zh, d, gen.writer_script(cfg, seg=case["seg"]), files, name="w", env_extra={"ZCKV_APP_NOISE": "1"} if case.get("noise") else None)
+            if case.get("noise"):
+                stats["files_written_and_read_with_dirty_openssl_error_queue"] = 1
             if w.timed_out and not w.cpu_exceeded:
                 return core.verdict(cid, "inconclusive", detail="watchdog", case=case)
             cs = core.crash_signatures(w)
@@ -150,7 +166,8 @@ def file_worker(case):
                     if wn == rn:
                         continue
                     d = os.path.join(cdir, "x_%s_%s" % (wn, rn))
-                    rd = core.run_zh(case["zhs"][rn], d, gen.reader_script("f.zck", pre=("vc",), sizes=case["sizes"]), {"f.zck": outs[wn]}, name="r")
+                    rd = core.run_zh(case["zhs"][rn], d, gen.reader_script("f.zck", pre=("vc",), sizes=case["sizes"]), {"f.zck": outs[wn]}, name="r",
+                                     env_extra={"ZCKV_APP_NOISE": "1"} if case.get("noise") else None)
                     cs = core.crash_signatures(rd)
                     if cs:
                         viol = (cs[0], "reader (%s build) on %s-written file: %s" % (rn, wn, cs))
@@ -185,7 +202,8 @@ class C18(core.Check):
             "position for lengths <= 130, random pieces}; random messages up to 1 MiB with random segmentation; long generated messages of 2^29+-k bytes (thorough: all four types, "
             "and 2^32+3 bytes) where 32-bit bit/byte counters wrap; each computed by the OpenSSL build and by the "
             "bundled build (both ASan+UBSan) and compared with hashlib (SHA-512/128 = first 16 bytes of SHA-512); cross-build files: writer cases whose outputs "
-            "must be byte-identical and validate/read back under the other build. distinct = (type, offset, length, segmentation)")
+            "must be byte-identical and validate/read back under the other build; a third of the digest batches and of the files additionally in a process whose application part "
+            "leaves an (already handled) error on OpenSSL's error queue and a non-zero errno behind before every operation. distinct = (type, offset, length, segmentation)")
     assumptions = ["third party: Python hashlib", "both flavours built from the same tree, differing only in -Dwith-openssl"]
     worker = staticmethod(worker)
 
@@ -221,7 +239,7 @@ class C18(core.Check):
         r.shuffle(lines)
         per = max(500, len(lines) // 32)
         for i in range(0, len(lines), per):
-            out.append({"w": "hash", "batch": i, "lines": lines[i:i + per], "bins": ctx["bins"], "seed": self.seed})
+            out.append({"w": "hash", "batch": i, "lines": lines[i:i + per], "bins": ctx["bins"], "seed": self.seed, "noise": (i // per) % 3 == 0})
         # long messages: the length counters of the back ends (bit length >= 2^32, byte length >= 2^32)
         longs = [(1, (1 << 29) + 77, 65536), (2, (1 << 29) + 5, 1 << 20)] if q else \
             [(t, ln, pc) for t in range(4) for ln, pc in (((1 << 29) - 1, 999983), (1 << 29, 65536), ((1 << 29) + 12345, 1 << 20), ((1 << 32) + 3, 1 << 20))]
@@ -239,5 +257,5 @@ class C18(core.Check):
                 cfg["chunk_hash"] = r.choice([1, 2])
             seg = [r.choice([1000, 4096, 70000])] + (["e"] if cfg["manual"] else [])
             out.append({"w": "file", "cfg": cfg, "kind": r.choice(["text", "random", "license", "mixed"]), "size": r.choice([0, 1, 5000, 150000, 400000]), "cseed": i,
-                        "seg": seg, "sizes": [r.choice([1000, 4096, 100000])], "zhs": ctx["zhs"]})
+                        "seg": seg, "sizes": [r.choice([1000, 4096, 100000])], "zhs": ctx["zhs"], "noise": i % 3 == 1})
         return out
